@@ -1,0 +1,147 @@
+//go:build verif
+// +build verif
+
+package mqtt
+
+// Exports for the external verification harness (build tag "verif" only).
+// Nothing in this file changes the behaviour of the library.
+
+import (
+	"context"
+	"io"
+	"sync/atomic"
+)
+
+// VerifRemainingLength exposes remainingLength.
+func VerifRemainingLength(n int) []byte { return remainingLength(n) }
+
+// VerifReadPacket exposes readPacket.
+func VerifReadPacket(r io.Reader) (byte, byte, []byte, error) {
+	t, f, c, err := readPacket(r)
+	return byte(t), f, c, err
+}
+
+// VerifParsed is a flattened result of a packet parser.
+type VerifParsed struct {
+	ID      uint16
+	Codes   []byte
+	SP      bool
+	Code    byte
+	Message *Message
+}
+
+// VerifParse runs the parser of the given packet type (high nibble byte) on flag and contents.
+func VerifParse(ptype byte, flag byte, contents []byte) (*VerifParsed, error) {
+	switch packetType(ptype) {
+	case packetConnAck:
+		p, err := (&pktConnAck{}).Parse(flag, contents)
+		if err != nil {
+			return nil, err
+		}
+		return &VerifParsed{SP: p.SessionPresent, Code: byte(p.Code)}, nil
+	case packetPublish:
+		p, err := (&pktPublish{}).Parse(flag, contents)
+		if err != nil {
+			return nil, err
+		}
+		return &VerifParsed{Message: p.Message, ID: p.Message.ID}, nil
+	case packetPubAck:
+		p, err := (&pktPubAck{}).Parse(flag, contents)
+		if err != nil {
+			return nil, err
+		}
+		return &VerifParsed{ID: p.ID}, nil
+	case packetPubRec:
+		p, err := (&pktPubRec{}).Parse(flag, contents)
+		if err != nil {
+			return nil, err
+		}
+		return &VerifParsed{ID: p.ID}, nil
+	case packetPubRel:
+		p, err := (&pktPubRel{}).Parse(flag, contents)
+		if err != nil {
+			return nil, err
+		}
+		return &VerifParsed{ID: p.ID}, nil
+	case packetPubComp:
+		p, err := (&pktPubComp{}).Parse(flag, contents)
+		if err != nil {
+			return nil, err
+		}
+		return &VerifParsed{ID: p.ID}, nil
+	case packetSubAck:
+		p, err := (&pktSubAck{}).Parse(flag, contents)
+		if err != nil {
+			return nil, err
+		}
+		codes := make([]byte, len(p.Codes))
+		for i, c := range p.Codes {
+			codes[i] = byte(c)
+		}
+		return &VerifParsed{ID: p.ID, Codes: codes}, nil
+	case packetUnsubAck:
+		p, err := (&pktUnsubAck{}).Parse(flag, contents)
+		if err != nil {
+			return nil, err
+		}
+		return &VerifParsed{ID: p.ID}, nil
+	case packetPingResp:
+		_, err := (&pktPingResp{}).Parse(flag, contents)
+		if err != nil {
+			return nil, err
+		}
+		return &VerifParsed{}, nil
+	}
+	return nil, ErrInvalidPacket
+}
+
+// VerifWrapError exposes wrapError.
+func VerifWrapError(err error, failure string) error { return wrapError(err, failure) }
+
+// VerifWrapErrorf exposes wrapErrorf.
+func VerifWrapErrorf(err error, format string, v ...interface{}) error {
+	return wrapErrorf(err, format, v...)
+}
+
+// VerifWrapErrorWithRetry exposes wrapErrorWithRetry.
+func VerifWrapErrorWithRetry(err error, retry func(context.Context, *BaseClient) error, failure string) error {
+	return wrapErrorWithRetry(err, retry, failure)
+}
+
+// VerifSubsApply exposes subscriptions.applyTo.
+func VerifSubsApply(d []Subscription, s []Subscription) []Subscription {
+	dd := subscriptions(d)
+	subscriptions(s).applyTo(&dd)
+	return dd
+}
+
+// VerifUnsubsApply exposes unsubscriptions.applyTo.
+func VerifUnsubsApply(d []Subscription, s []string) []Subscription {
+	dd := subscriptions(d)
+	unsubscriptions(s).applyTo(&dd)
+	return dd
+}
+
+// VerifClone exposes Message.clone.
+func VerifClone(m *Message) *Message { return m.clone() }
+
+// VerifTopicFilter exposes newTopicFilter / Match.
+func VerifTopicFilter(filter string) (func(topic string) bool, error) {
+	f, err := newTopicFilter(filter)
+	if err != nil {
+		return nil, err
+	}
+	return f.Match, nil
+}
+
+// VerifSetIDLast presets the packet identifier counter (call after Connect).
+func (c *BaseClient) VerifSetIDLast(v uint32) { atomic.StoreUint32(&c.idLast, v) }
+
+// VerifNewID exposes newID.
+func (c *BaseClient) VerifNewID() uint16 { return c.newID() }
+
+// VerifSubEstablished returns a copy of the RetryClient's established subscription book.
+// Only meaningful while the task goroutine is idle.
+func (c *RetryClient) VerifSubEstablished() []Subscription {
+	return append([]Subscription{}, c.subEstablished...)
+}
